@@ -317,6 +317,32 @@ def clause3b_revert(ctx, P):
            witness=bad.witness() if bad else None)
 
 
+def clause3c_setup_commit(ctx, P):
+    """setup_routing_information() itself: a failure return leaves the request out of the owner's table (whatever the order of
+    its steps) - the caller frees the request right away"""
+    sri = P.fn("router.c:setup_routing_information")
+    SUCC = Q.macro(P, "router.c", "HASHTABLE_SUCCESS")
+    bad = None
+    n = 0
+    for v in Q.path_views(ctx, P, sri):
+        rc = v.ret_const()
+        if rc is None or rc >= 0:
+            continue
+        puts = [(k, i) for k, i in v.calls("hashtable_put_route_table")]
+        if not puts:
+            continue
+        k_put, put = puts[-1]
+        st = [x for x in (_is_success_atom(P, a, p, put.id, SUCC) for (a, p) in v.atoms) if x is not None]
+        if not st or st[-1] is not True:
+            continue   # the put itself failed: nothing is registered
+        n += 1
+        if not any(k > k_put for k, i in v.calls("hashtable_remove_route_table")):
+            bad = v
+    ctx.ob("C03.3 R-COMMIT", sri, "failed-setup-leaves-nothing-registered", bad is None and n > 0,
+           "setup_routing_information() returns failure on a path on which the request was put into the owner's routing table and not "
+           "taken out again: the caller frees the request, the table keeps a pointer to it", witness=bad.witness() if bad else None)
+
+
 def clause4_route(ctx, P):
     soc = P.fn("element.c:set_or_call")
     e_is_lookup = lambda t: Q.is_call_to(t, "element_table_get")
@@ -512,6 +538,7 @@ def run(ctx):
         clause2_siblings(ctx, P, cg)
         clause3_commit(ctx, P, cg)
         clause3b_revert(ctx, P)
+        clause3c_setup_commit(ctx, P)
         clause4_route(ctx, P)
         clause5_payload(ctx, P)
         clause6_unique(ctx, P)
